@@ -443,6 +443,9 @@ def validate_traces(ck, trace, parts, classify, label, retry=True):
                                  {"kind": "steps", "prog": prog, "input": inp, "event": e, "expected": exp})
     ck.cov["traces_validated_against_impl"] += total
     log("%s: %d events validated in %.1fs" % (label, total, time.time() - t0))
+    if len(retry_cases) > 40:
+        # far too many time-outs for a loaded machine to explain: repeat a sample only
+        retry_cases = retry_cases[:40]
     if retry_cases:
         work = tmpdir("retry_%s_%s" % (ck.pid, label.replace("/", "_")))
         for how_kind in ("run-", "compiled-"):
